@@ -29,11 +29,15 @@ def make_log(dist, B, nblocks, rng):
     while size < target:
         k += 1
         ts = gen.fmt_ts(gen.BASE + k, 0, None, 0).encode()
+        if dist == "reset":
+            # the clock was reset for a while: the middle 80 % of the file carries timestamps twenty years back
+            frac_ = size / float(target)
+            ts = gen.fmt_ts((gen.BASE if (frac_ < 0.1 or frac_ >= 0.9) else gen.BASE - 20 * 365 * 86400) + k, 0, None, 0).encode()
         if dist == "aligned":          # every line exactly one block
             ln = B
         elif dist == "half":           # two lines per block: every second newline lands on a block end
             ln = B // 2
-        elif dist == "short":
+        elif dist in ("short", "reset"):
             ln = 20 + 8 + rng.randrange(0, 10)
         elif dist == "mixed":
             ln = rng.choice([B // 2, B, B + 1, 2 * B, 30, 45, 3 * B - 1])
@@ -94,14 +98,16 @@ def run(pid, tier, seed):
             trans += r.generated
 
         decades = [10, 100, 1000] + ([10000] if tier == "thorough" else [4000])
-        dists = ["aligned", "half", "short", "mixed", "multi"]
+        dists = ["aligned", "half", "short", "mixed", "multi", "reset"]
         conts = ["plain", "gz", "bz2", "lz4"] if tier == "thorough" else ["plain", "gz", "lz4"]
         Bs = [64, 256] if tier == "quick" else [64, 100, 256, 1024]
         jobs = []
         for dist in dists:
             for cont in conts:
                 for B in (Bs if cont == "plain" else Bs[:1]):
-                    for win in ([False, True] if cont == "plain" and dist in ("short", "mixed") else [False]):
+                    # (a window that opens in the middle of the file: a plain file is binary-searched, a streamed one is read
+                    #  through from the start and what lies before the window must be let go of on the way)
+                    for win in ([True] if dist == "reset" else [False, True] if dist in ("short", "mixed") else [False]):
                         jobs.append((dist, cont, B, win))
 
         def series(job):
@@ -121,7 +127,9 @@ def run(pid, tier, seed):
                 if win:
                     # window starting in the middle of the file: the plain reader binary-searches first
                     nmsgs = blob.count(b"\n2024") + 1
-                    argv += ["-a", gen.fmt_ts(gen.BASE + max(1, nmsgs // 2), 0, None, 0)]
+                    # ("reset": the window opens a day before the first message: the long run with the clock set back lies
+                    #  outside it, in the middle of the stream)
+                    argv += ["-a", gen.fmt_ts((gen.BASE - 86400) if dist == "reset" else (gen.BASE + max(1, nmsgs // 2)), 0, None, 0)]
                 rr = common.run_s4(argv + [name], cwd=d, timeout=600)
                 import shutil
                 shutil.rmtree(d, ignore_errors=True)
